@@ -69,7 +69,7 @@ let do_dec args =
     let src0 = { src_data = bytes_of_hex hx; src_chunks = ns_of_csv chunks } in
     (match Hashtbl.find_opt dispatch meth with
      | None -> "NODECODER"
-     | Some f -> f src0 (int_of_string junk) (int_of_string dl) (parse_reads reads) (int_of_string mon))
+     | Some f -> f src0 (max 0 (int_of_string junk)) (int_of_string dl) (parse_reads reads) (int_of_string mon))
   | _ -> "ERR args"
 
 let () =
